@@ -1,7 +1,26 @@
 (* C19 — arrays rebuilt from elements answer like an index of the same documents (theorems are added as they close).
    Model: Rebuild/Rebuild.v (after the repairs of D12). *)
-From SA Require Import Base.Prelude Index.Index Index.Index_Spec View.View Rebuild.Rebuild.
+From SA Require Import Base.Prelude Index.Index Index.Index_Spec Query.Phrase Query.Phrase_Spec View.View View.View_Spec View.View_Proofs Rebuild.Rebuild Rebuild.Rebuild_Proofs Rebuild.Rebuild_Proofs2.
 Open Scope N_scope.
+(* answers_like docs' ix: every term-frequency, document-frequency, length, position and phrase query on ix answers
+   as the spec on docs' (a fresh index of docs' does, by C01/C02/C03/C05).
+   Sources are fresh indexes with views selected by valid key chains (any order, repeats); the new array takes, per new
+   row, an element of some source view or a fill value; fewer than 2^28 new rows. Covers SearchArray(list(arr)),
+   SearchArray(list(view)), pd.concat, take / reindex / shift with fill, object round trips. *)
+Theorem C19_rebuilt_answers_like_fresh_index : forall srcs refs els,
+  Forall source_ok srcs -> Forall2 (ref_el srcs) refs els -> N.of_nat (length refs) < 2 ^ 28 ->
+  answers_like (map (ref_doc srcs) refs) (rebuild els).
+Proof. exact rebuild_answers. Qed.
+Print Assumptions C19_rebuilt_answers_like_fresh_index.
+
+Theorem C19_take_with_fill : forall docs bs ix avoid keys v idx els,
+  wf_docs docs -> index false bs docs = AOk ix -> valid_keys (length docs) keys ->
+  select_chain (of_index ix avoid) keys = AOk v -> take_fill_elements v idx = AOk els ->
+  N.of_nat (length idx) < 2 ^ 28 ->
+  answers_like (taken_docs (view_docs docs keys) idx) (rebuild els).
+Proof. exact take_fill_answers. Qed.
+Print Assumptions C19_take_with_fill.
+
 Example C19_rebuilt_view_answers_like_fresh_index :
   let docs := [[1;2;1;3];[];[2];[1;1;2];[3;1]] in
   match index false 100 docs with
